@@ -40,10 +40,12 @@ package cutter
 //@ iface OperationQueue.Len
 //@   modifies qLenSeen, qMin
 //@   ensures qLenSeen == result && qMin == result
+// ghost: what the last Peek showed (the head of the queue)
+//@ ghost peeked []*operation.QueuedOperationAtTime
 //@ iface OperationQueue.Peek
 //@   results ops, err
-//@   modifies peekN, qMin
-//@   ensures peekN == num && qMin >= old(qMin)
+//@   modifies peekN, qMin, peeked
+//@   ensures peekN == num && qMin >= old(qMin) && peeked == ops
 //@   ensures err == nil ==> len(ops) <= num && len(ops) <= qMin && (num <= old(qMin) ==> len(ops) == num) && queuedNonNil(ops)
 //@ iface OperationQueue.Remove
 //@   results ops, ack, nack, err
@@ -66,7 +68,11 @@ package cutter
 //@   ensures err == nil && len(res.Operations) > 0 ==> removes == old(removes) + 1 && removeN == len(res.Operations) && res.Pending == qLenSeen - len(res.Operations)
 //@   ensures err == nil && len(res.Operations) == 0 ==> removes == old(removes)
 //@   ensures removes <= old(removes) + 1
-//@   modifies qLenSeen, peekN, removeN, removes, qMin
+//   what is removed is the LONGEST prefix of the peeked head whose operations were queued under the version of the first
+//   one, the head that was looked at is min(queue length, maximum batch size) long, and the batch carries that version
+//@   ensures err == nil && len(res.Operations) > 0 ==> peekN == cond(qLenSeen < maxOps(curVer(r.client)), qLenSeen, maxOps(curVer(r.client))) && res.ProtocolVersion == peeked[0].ProtocolVersion
+//@   ensures err == nil && len(res.Operations) > 0 ==> removeN <= len(peeked) && (forall q int :: 0 <= q && q < removeN ==> peeked[q].ProtocolVersion == peeked[0].ProtocolVersion) && (removeN < len(peeked) ==> peeked[removeN].ProtocolVersion != peeked[0].ProtocolVersion)
+//@   modifies qLenSeen, peekN, removeN, removes, qMin, peeked
 //
 // function-valued fields of a cut result: committing / rolling back the removal
 //@ ghost acks int
